@@ -347,9 +347,11 @@ def _replay_mixed(cex):
                         out = a.concat_with(b)
                     else:
                         out = a.append(b)
-                except Exception:
+                except Exception as e:
                     if len(a) != 3 or len(a.features) not in (0, 3) or a.rotator.as_quat().shape[0] != 3:
                         bad.append({"op": kind, "featured_first": featured_first, "rejected-but-receiver-changed": [len(a), len(a.features)]})
+                    if not (kind == "append" and not featured_first):
+                        bad.append({"op": kind, "featured_first": featured_first, "other_rows": n_other, "valid-input-rejected": repr(e)[:120]})
                     continue
                 n = out.pos.shape[0]
                 nf = len(out.features)
@@ -400,6 +402,10 @@ def sec_mixed(rec, patches=None):
                             ok = ids0 == t.ids
                             rec.fact(f"{tag}/rejected => receiver-unchanged", ok, key="C12/mixed/rejected-but-modified", detail={"exc": repr(exc)[:160], "why": why},
                                      reproduced=True if ok else replay_mixed({})[0])
+                            # a table without features is not an inconsistent input: only `append` onto a plain receiver (extra columns) may reject it
+                            legit = kind == "append" and not featured_first
+                            rec.fact(f"{tag}/not-rejected (missing features are filled with null)", legit, key="C12/mixed/valid-input-rejected", detail={"exc": repr(exc)[:160]},
+                                     reproduced=True if legit else replay_mixed({})[0])
                             continue
                         if kind == "append" and not featured_first and n_other:
                             okx, det = replay_mixed({})
@@ -703,6 +709,7 @@ MUTANTS = [
     ("reject:length-check-removed", "checks.c12", "sec_reject", {}, {_MC: [("            if len(df) != self.pos.shape[0]:\n", "            if False:\n")]}),
     ("reject:append-extra-columns-allowed", "checks.c12", "sec_reject", {}, {_MC: [("            if len(feat.columns) != len(self.features.columns):\n", "            if False:\n")]}),
     ("subset:negative-index-allowed", "checks.c12", "sec_symbolic_index", {}, {_MC: [("            if spec < 0:\n                raise IndexError(\"Negative indexing is not supported.\")\n", "")]}),
+    ("concat:revert-null-fill-for-feature-less-tables (1453a8b)", "checks.c12", "sec_mixed", {}, {_MC: [("        if len(df.columns) == 0 and n > 0:\n", "        if False:\n")]}),
     ("append:revert-featureless-fix (014596f)", "checks.c12", "sec_mixed", {}, {_MC: [("            if len(other_feat.columns) == 0 and other.count() > 0:\n", "            if False:\n")]}),
     ("append:featureless-receiver-adopts-features (seeded change C12_6)", "checks.c12", "sec_mixed", {}, {_MC: [("        if self.count() == 0:\n            feat = other.features\n        else:\n            other_feat", "        if len(self.features) == 0:\n            feat = other.features\n        else:\n            other_feat")]}),
     ("concat:revert-empty-fix", "checks.c12", "sec_single", {"n": 0, "keys": (), "ops": [20]}, {_MC: [("            all_features = pl.concat(non_empty or features[:1], how=how)", "            all_features = pl.concat(features, how=how)")]}),
